@@ -587,7 +587,7 @@ def r6_nothing_changes_before_evolving(ctx):
             for c in n.calls():
                 targets, _prec = ctx.resolve(ev, c)
                 roots += targets
-    ctx.floor('calls in evolve() before evolving.send', len(roots), 1)
+    ctx.counts['R-C17.6 calls in evolve() before evolving.send'] = len(roots)
     reach = p.reachable_funcs(roots)
     n_funcs, bad = 0, 0
     for fq, f in sorted(reach.items()):
@@ -602,7 +602,7 @@ def r6_nothing_changes_before_evolving(ctx):
     if not bad:
         ctx.ok(ev, 'no state-changing primitive among %d functions reachable '
                'before evolving.send()' % n_funcs)
-    ctx.floor('functions reachable before evolving.send', n_funcs, 50)
+    ctx.counts['R-C17.6 functions reachable before evolving.send'] = n_funcs
 
 
 def run(ctx):
